@@ -142,3 +142,23 @@ package bytesconv
 //@ extern bytes.NewReader(b) r
 //@   allocates
 //@   ensures r != nil && fresh(r) && r.i == 0 && len(r.s) == len(b)
+
+// ---- C04: decimal rendering ----
+// AppendUint: (1) the digits assembled in the scratch buffer fold back to n, are all decimal digits and
+// there are 1..20 of them; (2) the result is dst followed by exactly those bytes. That the fold over the
+// result equals the fold over the scratch buffer is the extensionality step that is not mechanised here.
+//@ func AppendUint(dst, n) r
+//@   props C04, C03
+//@   alias dst
+//@   requires n >= 0
+//@   modifies spare(dst)
+//@   allocates
+//@   ensures extends(r, dst) && spareOnly(dst) && len(r) > len(dst) && len(r) <= len(dst) + 20
+//@   assert before append: 0 <= i && i <= 19 && forall(k, i, 20, isDigit(buf[k]))
+//@   assert before append: fold10(buf, i + 1, 20, n) == old(n)
+//@   assert before append: fold10(buf, i, 20, 0) == old(n)
+//@   assert after append: len(result) == len(dst) + 20 - i && forall(k, 0, 20 - i, result[len(dst) + k] == buf[i + k])
+//@   loop 0:
+//@     invariant 1 <= i && i <= 20 && 0 <= n && n <= old(n)
+//@     invariant forall(k, i, 20, isDigit(buf[k]))
+//@     invariant fold10(buf, i, 20, n) == old(n)
